@@ -236,6 +236,15 @@ pub fn states_of(base: &BTreeMap<Vec<u8>, (usize, u64)>, commits: &CommitList) -
     out
 }
 
+/// A helper process that could not even be started is the harness's problem, not the store's.
+pub fn died_class(status: &str) -> &'static str {
+    if status.starts_with("spawn failed") {
+        "harness-spawn"
+    } else {
+        "workload-died"
+    }
+}
+
 pub struct ChildRun {
     pub trace: Vec<TraceOp>,
     pub commits: CommitList,
@@ -781,7 +790,7 @@ pub fn run_crash_case(case: &CrashCase, dir: &Path, judge: Judge) -> CaseResult 
     let run = run_child(&case.work, &run_root, dir, None, &env);
     let fail = |class: &str, msg: String| CaseResult { stats: Stats::default(), failure: Some(Failure { class: class.into(), step: usize::MAX, msg, aux: json!({"arena_full_allowed": case.arena_full}) }), nontrivial: false };
     if run.status != "ok" {
-        return fail("workload-died", format!("the workload process did not finish: {}", run.status));
+        return fail(died_class(&run.status), format!("the workload process did not finish: {}", run.status));
     }
     if let Some((c, m)) = &run.child_failure {
         return fail(&format!("workload/{c}"), m.clone());
@@ -840,7 +849,7 @@ pub fn run_crash_case(case: &CrashCase, dir: &Path, judge: Judge) -> CaseResult 
                     let case2 = Case { cfg: case.work.cfg.clone(), pool: case.work.pool.clone(), steps: steps2 };
                     let run2 = run_child(&case2, &root2, dir, None, &env);
                     if run2.status != "ok" {
-                        failure = Some(Failure { class: "workload-died".into(), step: usize::MAX, msg: format!("second-generation workload on the image of crash point {p1} did not finish: {}", run2.status), aux: json!({"generation": 2, "arena_full_allowed": case.arena_full}) });
+                        failure = Some(Failure { class: died_class(&run2.status).into(), step: usize::MAX, msg: format!("second-generation workload on the image of crash point {p1} did not finish: {}", run2.status), aux: json!({"generation": 2, "arena_full_allowed": case.arena_full}) });
                         break;
                     }
                     if let Some((c, m)) = &run2.child_failure {
